@@ -415,7 +415,7 @@ class Case:
                 rep = w.get_cursor_coords(sz)
             except Exception as e:  # noqa: BLE001
                 self.viol(tag, f"get_cursor_coords-raise:{exc_kind(e)}", None, f"{n.kind}.get_cursor_coords({sz}) raised {type(e).__name__}: {e}", op)
-                self._blame(n)
+                self._blame(n, sz)
                 continue
             try:
                 with warnings.catch_warnings():
@@ -433,10 +433,11 @@ class Case:
             if rep_t != cur_t:
                 kind = "reported-None-drawn-cursor" if rep_t is None else ("reported-cursor-none-drawn" if cur_t is None else "coords-differ")
                 self.viol(tag, kind, None, f"{n.kind} at {sz}: get_cursor_coords={rep_t} but render(focus=True).cursor={cur_t}", op)
-                self._blame(n)
+                self._blame(n, sz)
 
-    def _blame(self, n):
-        # clause-1 violations name the node itself, not a leaf
+    def _blame(self, n, sz):
+        # clause-1 violations name the node itself (and the mode it was rendered in), not a leaf
+        self.collect[-1]["mode"] = mode_of(sz)
         self.collect[-1]["path"] = node_desc(n, focus_child(n))
         self.collect[-1]["node_is_root"] = n is self.root
         self.collect[-1]["nodepath"] = node_index_path(n)
@@ -785,7 +786,7 @@ def report(ctx, recipe, size, viols, focus=True):
             if not moved:
                 break
         clause = best["clause"]
-        sig = f"C09|{clause}|{best['kind']}|{mode_of(s)}|{best['path']}"
+        sig = f"C09|{clause}|{best['kind']}|{best.get('mode') or mode_of(s)}|{best['path']}"
         wit = {"recipe": strip(r), "size": s, "focus": focus, "clause": clause, "kind": best["kind"], "op": best["op"]}
         ctx.violation(sig, best["msg"] + f"  [root rendered at {tuple(s)}]", wit)
 
